@@ -2,6 +2,7 @@
 import ast
 import inspect
 import io
+import logging
 import os
 import subprocess
 import sys
@@ -635,6 +636,61 @@ def repeat_case(target, nr):
   return res
 
 
+# parameter values whose hashes coincide in CPython (hash(-1) == hash(-2), hash(0.0) == hash(-0.0), hash(x) taken modulo 2**61-1)
+# and ordinary ones: a model using one form twice with such values must give each entry its own function
+TWIN_VALUES = [("-1.0", "-2.0"), ("-1", "-2"), ("1.0", "2305843009213693952.0"), ("0.5", "-0.5"), ("2", "2.0000000000000004"),
+               ("3.0", "2305843009213693954.0"), ("1e-3", "1e3"), ("0.0", "-0.0")]
+TWIN_FORMS = [("as.constant %s", "", lambda r, v: v), ("as.coul 1.0 %s", "", None), ("f 2.0 %s", "f(r, a, b) = a*b/r + b", lambda r, v: 2.0 * v / r + v),
+              ("as.polynomial 0.0 %s", "", lambda r, v: v * r), ("sum(as.constant %s, f 1.0 %s)", "f(r, a, b) = a*b/r", lambda r, v: v + v / r)]
+
+
+def _twin_energies(text):
+  from atsim.potentials.config import Configuration
+  tab = Configuration().read(io.StringIO(text))
+  return dict(("%s-%s" % (p.speciesA, p.speciesB), [p.energy(r) for r in (0.5, 1.0, 2.75)]) for p in tab.potentials)
+
+
+def twin_case():
+  """One form used by two entries of a model whose parameter lists differ in one value: the energy of each
+  entry equals what the entry gives when it is the only one in the file and the documented formula (concrete differential
+  over the candidate values, both orders in the file; a history class the symbolic purity cases cannot reach because
+  their parameters are symbols with distinct hashes)."""
+  res = new_result("twin parametrisations of one form: %d value pairs x %d forms x 2 orders" % (len(TWIN_VALUES), len(TWIN_FORMS)))
+  logging.disable(logging.CRITICAL)
+  try:
+    for v1, v2 in TWIN_VALUES:
+      for form, defn, formula in TWIN_FORMS:
+        for order in (0, 1):
+          a, b = (v1, v2) if order == 0 else (v2, v1)
+          head = "[Tabulation]\ntarget : LAMMPS\ncutoff : 5.0\nnr : 6\n\n"
+          tail = ("\n[Potential-Form]\n%s\n" % defn) if defn else ""
+          ea, eb = form.replace("%s", a), form.replace("%s", b)
+          both = head + "[Pair]\nA-A : %s\nB-B : %s\n" % (ea, eb) + tail
+          res["paths"] += 1
+          res["replays"] += 1
+          try:
+            alone_a = _twin_energies(head + "[Pair]\nA-A : %s\n" % ea + tail)["A-A"]
+            alone_b = _twin_energies(head + "[Pair]\nB-B : %s\n" % eb + tail)["B-B"]
+            got = _twin_energies(both)
+          except Exception as e:  # noqa
+            res["violations"].append(dict(key="twin-exception", desc="%s: %s on\n%s" % (type(e).__name__, e, both), record=dict(kind="twin", model=both)))
+            continue
+          bad = []
+          for lbl, alone, val in (("A-A", alone_a, float(a)), ("B-B", alone_b, float(b))):
+            if got[lbl] != alone:
+              bad.append("%s gives %r in the two-entry model and %r when it is the only entry" % (lbl, got[lbl], alone))
+            if formula is not None:
+              want = [formula(r, val) for r in (0.5, 1.0, 2.75)]
+              if any(abs(x - y) > 1e-9 * max(1.0, abs(y)) for x, y in zip(got[lbl], want)):
+                bad.append("%s gives %r, its definition gives %r" % (lbl, got[lbl], want))
+          if bad:
+            res["violations"].append(dict(key="twin-parametrisation", desc="; ".join(bad[:2]) + " on\n" + both, record=dict(kind="twin", model=both)))
+            break
+  finally:
+    logging.disable(logging.NOTSET)
+  return res
+
+
 def cases(tier, seed=0):
   q = tier == "quick"
   cs = []
@@ -651,6 +707,7 @@ def cases(tier, seed=0):
   from checks import eam_api as _ea
   for t in ("setfl", "DL_POLY_EAM", "setfl_fs", "DL_POLY_EAM_fs", "eam_adp"):
     cs += _ea.written_first_cases(t, tier)
+  cs.append(Case("twin parametrisations", twin_case))
   return cs
 
 
